@@ -21,6 +21,14 @@
                   is gone, a write error and therefore closeOnWriteErr -> Close
      "eof"        the read loop: handles the packets Faults[t] (the handler panics on
                   some), then reads EOF because the peer closed, and closes
+     "switch"     conn.SetActiveSessionHandler(reg, h_t): installs a second counting handler
+                  (-- gate sh.switch.installed --), then calls its Activated()
+     "switchw"    the same with a handler whose Activated() writes a packet (like "write":
+                  a failed write closes the connection from inside the switch)
+
+   closeFails: the underlying net.Conn.Close() returns an error during the one effective
+   close (the connection is closed all the same); teardown must still happen.
+   Teardowns are counted per connection, over all handlers.
 
    Locked = TRUE: sync.Once respected (the code).  Locked = FALSE: the Once is a plain
    unsynchronised "if !done" -- shows the invariants are not vacuous and enumerates
@@ -36,7 +44,10 @@ CONSTANTS Threads,      \* e.g. {"t1", "t2"}
 
 VARIABLES kind,         \* [Threads -> Kinds]
           faults,       \* [Threads -> FaultSeqs] (<<>> unless eof)
-          pc,           \* [Threads -> {"start","enter","once","done"}]
+          pc,           \* [Threads -> {"start","inst","enter","once","done"}]
+          closeFails,   \* BOOLEAN: the underlying Close() reports an error
+          active,       \* the installed session handler: "h0" or the thread that installed its own
+          torn,         \* [handler -> times its Disconnected() ran]
           res,          \* [Threads -> {"", "ok", "closed", "err"}]
           inside,       \* set of threads inside the Once body
           onceDone,     \* BOOLEAN
@@ -47,8 +58,8 @@ VARIABLES kind,         \* [Threads -> Kinds]
           lateOk,       \* a write that began after a closer returned did not report "closed"
           h
 
-vars == <<kind, faults, pc, res, inside, onceDone, cancelled, peerGone, teardowns, alive, lateOk, h>>
-View == <<kind, faults, pc, res, inside, onceDone, cancelled, peerGone, teardowns, alive, lateOk>>
+vars == <<kind, faults, closeFails, active, torn, pc, res, inside, onceDone, cancelled, peerGone, teardowns, alive, lateOk, h>>
+View == <<kind, faults, closeFails, active, torn, pc, res, inside, onceDone, cancelled, peerGone, teardowns, alive, lateOk>>
 
 \* values for FaultSeqs (a cfg file cannot write tuples)
 FaultsNone == {<<>>}
@@ -59,11 +70,16 @@ SeqsUpTo(n, set) == IF n = 0 THEN {<<>>}
                     ELSE SeqsUpTo(n - 1, set) \cup
                          {Append(s, k) : s \in {x \in SeqsUpTo(n - 1, set) : Len(x) = n - 1}, k \in set}
 FaultsAll3 == SeqsUpTo(3, PanicKinds \cup {"none"})
-KindsAll == {"close", "unknown", "closewith", "write", "eof"}
+KindsAll == {"close", "unknown", "closewith", "write", "eof", "switch", "switchw"}
+Handlers == Threads \cup {"h0"}
+WriteLike(k) == k \in {"write", "switchw"}
+NotCloser(k) == k \in {"write", "switch", "switchw"}
 KindsEof == {"eof"}
 
 Init == /\ kind \in {f \in [Threads -> Kinds] : Cardinality({t \in Threads : f[t] = "eof"}) <= 1}
         /\ faults \in {f \in [Threads -> FaultSeqs] : \A t \in Threads : kind[t] # "eof" => f[t] = <<>>}
+        /\ closeFails \in BOOLEAN
+        /\ active = "h0" /\ torn = [x \in Handlers |-> 0]
         /\ pc = [t \in Threads |-> "start"]
         /\ res = [t \in Threads |-> ""]
         /\ inside = {} /\ onceDone = FALSE /\ cancelled = FALSE /\ peerGone = FALSE
@@ -76,7 +92,8 @@ Ret(t, r) == res' = [res EXCEPT ![t] = r]
 \* some close call has already returned
 CloserReturned == \E t \in Threads :
                      /\ pc[t] = "done"
-                     /\ IF kind[t] = "write" THEN res[t] = "err" ELSE res[t] # ""
+                     /\ IF WriteLike(kind[t]) THEN res[t] = "err"
+                        ELSE kind[t] # "switch" /\ res[t] # ""
 
 HasPanic(s) == \E i \in 1..Len(s) : s[i] \in PanicKinds
 
@@ -97,36 +114,51 @@ Start(t) ==
                             /\ UNCHANGED <<res, peerGone, alive>>
                        ELSE Go(t, "done") /\ Ret(t, "ok") /\ lateOk' = (lateOk \/ CloserReturned)
                             /\ UNCHANGED <<peerGone, alive>>
+         [] kind[t] \in {"switch", "switchw"} ->
+              \* Deactivated(old); install the new handler; SetState; unlock
+              Go(t, "inst") /\ UNCHANGED <<res, peerGone, alive, lateOk>>
          [] kind[t] = "eof" ->
               \* the loop handles the injected packets; a panic in the handler is recovered
               /\ alive' = (Recover \/ ~HasPanic(faults[t]))
               /\ peerGone' = TRUE
               /\ Go(t, "enter") /\ UNCHANGED <<res, lateOk>>
-    /\ UNCHANGED <<kind, faults, inside, onceDone, cancelled, teardowns>>
+    /\ active' = (IF kind[t] \in {"switch", "switchw"} THEN t ELSE active)
+    /\ UNCHANGED <<kind, faults, closeFails, torn, inside, onceDone, cancelled, teardowns>>
+
+\* handler.Activated() of the freshly installed handler
+Activate(t) ==
+    /\ pc[t] = "inst" /\ alive
+    /\ IF kind[t] = "switchw" /\ ~cancelled /\ peerGone
+         THEN Go(t, "enter") /\ UNCHANGED res              \* its write fails: closeOnWriteErr
+         ELSE Go(t, "done") /\ Ret(t, "ok")
+    /\ UNCHANGED <<kind, faults, closeFails, active, torn, inside, onceDone, cancelled, peerGone,
+                   teardowns, alive, lateOk>>
 
 \* c.closeOnce.Do(func() { ...
 Once(t) ==
     /\ pc[t] = "enter" /\ alive
     /\ IF onceDone
          THEN /\ Go(t, "done")
-              /\ Ret(t, IF kind[t] = "write" THEN "err" ELSE "closed")   \* alreadyClosed
+              /\ Ret(t, IF WriteLike(kind[t]) THEN "err" ELSE "closed")   \* alreadyClosed
               /\ UNCHANGED inside
          ELSE /\ Locked => inside = {}              \* sync.Once: wait for the thread inside
               /\ inside' = inside \cup {t}
               /\ Go(t, "once") /\ UNCHANGED res
-    /\ UNCHANGED <<kind, faults, onceDone, cancelled, peerGone, teardowns, alive, lateOk>>
+    /\ UNCHANGED <<kind, faults, closeFails, active, torn, onceDone, cancelled, peerGone, teardowns,
+                   alive, lateOk>>
 
 \* ... c.cancelCtx(); c.c.Close(); sh.Disconnected() })
 Body(t) ==
     /\ pc[t] = "once" /\ alive
     /\ cancelled' = TRUE
-    /\ teardowns' = teardowns + 1
+    /\ teardowns' = teardowns + 1                 \* the active handler's Disconnected(),
+    /\ torn' = [torn EXCEPT ![active] = @ + 1]    \* whether or not c.c.Close() failed
     /\ onceDone' = TRUE
     /\ inside' = inside \ {t}
-    /\ Go(t, "done") /\ Ret(t, IF kind[t] = "write" THEN "err" ELSE "ok")
-    /\ UNCHANGED <<kind, faults, peerGone, alive, lateOk>>
+    /\ Go(t, "done") /\ Ret(t, IF WriteLike(kind[t]) \/ closeFails THEN "err" ELSE "ok")
+    /\ UNCHANGED <<kind, faults, closeFails, active, peerGone, alive, lateOk>>
 
-Next == \E t \in Threads : Start(t) \/ Once(t) \/ Body(t)
+Next == \E t \in Threads : Start(t) \/ Activate(t) \/ Once(t) \/ Body(t)
 
 Spec == Init /\ [][Next]_vars
 
@@ -144,7 +176,11 @@ LaterWritesClosed == ~lateOk
 
 \* at quiescence: torn down exactly once if anything closed it
 ExactlyOnce ==
-    Quiescent => teardowns = (IF \E t \in Threads : kind[t] # "write" \/ res[t] = "err" THEN 1 ELSE 0)
+    Quiescent => teardowns = (IF \E t \in Threads : ~NotCloser(kind[t]) \/ res[t] = "err" THEN 1 ELSE 0)
+
+\* per connection = summed over every handler that was ever installed
+PerConnection == teardowns = torn["h0"] + torn["t1"] + (IF "t2" \in Threads THEN torn["t2"] ELSE 0)
+                                        + (IF "t3" \in Threads THEN torn["t3"] ELSE 0)
 
 Alive == alive
 
@@ -152,9 +188,9 @@ TypeOK == /\ teardowns \in 0..Cardinality(Threads) /\ onceDone \in BOOLEAN /\ ca
 
 ----------------------------------------------------------------------------
 Emit == (Export /\ Quiescent) =>
-           PrintT(<<"SCHED", ToJson([kind |-> kind, faults |-> faults, sched |-> h])>>)
+           PrintT(<<"SCHED", ToJson([kind |-> kind, faults |-> faults, closefail |-> closeFails, sched |-> h])>>)
 
 \* fault sequences for the panic-containment runs: one per initial state
-EmitFaults == (Export /\ h = <<>>) =>
+EmitFaults == (Export /\ h = <<>> /\ ~closeFails) =>
            PrintT(<<"FAULTS", ToJson([t \in {x \in Threads : kind[x] = "eof"} |-> faults[t]])>>)
 =============================================================================
